@@ -16,6 +16,8 @@
 (*   either side of a constraint that mentions such a signal, an assertion *)
 (*   outcome, the return value, an array dimension, a branch decision.     *)
 (* Only flagged sites are judged, only the listed observables compared.    *)
+(* Local arrays hold one field element per element; an element is selected  *)
+(* by the value of its index expression in the run at hand.                 *)
 (***************************************************************************)
 EXTENDS Field, FiniteSets, IOUtils
 
@@ -35,6 +37,10 @@ Eval(e, en) ==
   CASE nd.k = "num" -> nd.v % P
     [] nd.k \in {"var", "sigv"} -> IF nd.x \in DOMAIN en THEN en[nd.x] ELSE 0
     [] nd.k = "opaque" -> Err
+    [] nd.k = "idx" ->          \* element of a local array (a sequence of field elements)
+         LET ix == Eval(nd.l, en) IN
+         IF nd.x \notin DOMAIN en \/ ix = Err THEN Err
+         ELSE IF ix + 1 \notin DOMAIN en[nd.x] THEN Err ELSE en[nd.x][ix + 1]
     [] nd.k = "bin" -> LET a == Eval(nd.l, en)
                            b == Eval(nd.r, en) IN
                        IF a = Err \/ b = Err THEN Err ELSE Bin(nd.op, a, b, P)
@@ -63,6 +69,18 @@ Step == /\ l <= Len(Rec) /\ started /\ bad = "" /\ stack # <<>>
                flagged == Site.k = "stmt" /\ Site.sid = n IN
            CASE st.k = "blk" -> stack' = Push(rest, st.kids) /\ UNCHANGED <<e1, e2, bad>>
              [] st.k = "decl0" -> /\ stack' = rest /\ e1' = (st.x :> 0) @@ e1 /\ e2' = (st.x :> 0) @@ e2 /\ UNCHANGED bad
+             [] st.k = "decla" ->        \* var a[n]: all elements zero
+                  /\ stack' = rest /\ UNCHANGED bad
+                  /\ e1' = (st.x :> [j \in 1..st.t |-> 0]) @@ e1 /\ e2' = (st.x :> [j \in 1..st.t |-> 0]) @@ e2
+             [] st.k = "seti" ->         \* a[i] = e: in each run the element its own index value selects; an index out of range ends the run
+                  LET i1 == Eval(st.e2, e1)
+                      i2 == Eval(st.e2, e2) IN
+                  IF i1 = Err \/ i2 = Err \/ st.x \notin DOMAIN e1 \/ i1 + 1 \notin DOMAIN e1[st.x] \/ i2 + 1 \notin DOMAIN e2[st.x]
+                  THEN stack' = <<>> /\ UNCHANGED <<e1, e2, bad>>
+                  ELSE /\ stack' = rest /\ UNCHANGED bad
+                       /\ e1' = (st.x :> [e1[st.x] EXCEPT ![i1 + 1] = Eval(st.e, e1)]) @@ e1
+                       /\ IF flagged THEN \E v \in 0..(P - 1) : e2' = (st.x :> [e2[st.x] EXCEPT ![i2 + 1] = v]) @@ e2
+                          ELSE e2' = (st.x :> [e2[st.x] EXCEPT ![i2 + 1] = Eval(st.e, e2)]) @@ e2
              [] st.k = "set" ->
                   /\ stack' = rest /\ UNCHANGED bad
                   /\ e1' = (st.x :> Eval(st.e, e1)) @@ e1
